@@ -9,6 +9,8 @@ package dnsforward
 // log sink.
 
 import (
+	"syscall"
+	"errors"
 	"slices"
 	"context"
 	"fmt"
@@ -32,6 +34,7 @@ import (
 	"github.com/AdguardTeam/golibs/netutil"
 	"github.com/AdguardTeam/golibs/timeutil"
 	"github.com/miekg/dns"
+	"gopkg.in/yaml.v3"
 )
 
 var vkInitOnce sync.Once
@@ -130,6 +133,8 @@ type vkClient struct {
 	UseOwnServices     bool     `json:"use_own_blocked_services"`
 	Services           []string `json:"services"`
 	ServicesPauseAlways bool    `json:"services_pause_always"`
+	// ServicesFarZone: see vkConf.ServicesFarZone.
+	ServicesFarZone bool `json:"services_schedule_in_far_zone"`
 }
 
 // vkConf is a whole generated server configuration.
@@ -150,7 +155,10 @@ type vkConf struct {
 	// inactive at every instant); otherwise the schedule is empty (services
 	// active at every instant).
 	ServicesPauseAlways bool
-	Clients             []vkClient
+	// ServicesFarZone writes the schedule with that state in a time zone in
+	// which it is another day of the week than on this machine.
+	ServicesFarZone bool
+	Clients         []vkClient
 	AAAADisabled        bool
 	// CacheSize enables the DNS response cache of the proxy (bytes).
 	CacheSize uint32
@@ -189,6 +197,70 @@ func vkWeekly(pauseAlways bool) *schedule.Weekly {
 	return schedule.EmptyWeekly()
 }
 
+// vkWeeklyFar returns a schedule with the same state at the current instant as
+// vkWeekly(pause), written in a fixed-offset time zone in which it is another
+// day of the week than on this machine: a whole-day range on that zone's
+// current weekday only (pausing), or on this machine's current weekday only
+// (not pausing: in the schedule's zone it is not that day).  ok is false when
+// either clock is within 20 minutes of midnight.
+func vkWeeklyFar(pause bool) (w *schedule.Weekly, ok bool) {
+	days := [7]string{"sun", "mon", "tue", "wed", "thu", "fri", "sat"}
+	now := time.Now()
+	mMin := now.Hour()*60 + now.Minute()
+	if mMin < 20 || mMin > 1420 {
+		return nil, false
+	}
+	bestZone, bestDist, bestWD := "", -1, 0
+	for off := -12; off <= 14; off++ {
+		if off == 0 {
+			continue
+		}
+		name := fmt.Sprintf("Etc/GMT-%d", off)
+		if off < 0 {
+			name = fmt.Sprintf("Etc/GMT+%d", -off)
+		}
+		loc, err := time.LoadLocation(name)
+		if err != nil {
+			continue
+		}
+		lt := now.In(loc)
+		if lt.Weekday() == now.Weekday() {
+			continue
+		}
+		lMin := lt.Hour()*60 + lt.Minute()
+		dist := min(lMin, 1440-lMin)
+		if dist > bestDist {
+			bestZone, bestDist, bestWD = name, dist, int(lt.Weekday())
+		}
+	}
+	if bestDist < 20 {
+		return nil, false
+	}
+	day := days[int(now.Weekday())]
+	if pause {
+		day = days[bestWD]
+	}
+	doc := fmt.Sprintf("time_zone: %s\n%s: {start: 0s, end: 24h}\n", bestZone, day)
+	w = &schedule.Weekly{}
+	if err := yaml.Unmarshal([]byte(doc), w); err != nil {
+		return nil, false
+	}
+
+	return w, true
+}
+
+// vkWeeklyKind returns the schedule for an expected pause state; far selects
+// the far-zone spelling when it is available at this instant.
+func vkWeeklyKind(pause, far bool) *schedule.Weekly {
+	if far {
+		if w, ok := vkWeeklyFar(pause); ok {
+			return w
+		}
+	}
+
+	return vkWeekly(pause)
+}
+
 // vkPersistent builds the persistent client described by vc.
 func vkPersistent(vc vkClient) *client.Persistent {
 	return &client.Persistent{
@@ -199,7 +271,7 @@ func vkPersistent(vc vkClient) *client.Persistent {
 		FilteringEnabled:      vc.FilteringEnabled,
 		UseOwnBlockedServices: vc.UseOwnServices,
 		BlockedServices: &filtering.BlockedServices{
-			Schedule: vkWeekly(vc.ServicesPauseAlways),
+			Schedule: vkWeeklyKind(vc.ServicesPauseAlways, vc.ServicesFarZone),
 			IDs:      vc.Services,
 		},
 	}
@@ -249,7 +321,7 @@ func vkStartOnce(c *vkConf) (vs *vkServer, err error) {
 		UserRules:         c.UserRules,
 		Rewrites:          c.Rewrites,
 		BlockedServices: &filtering.BlockedServices{
-			Schedule: vkWeekly(c.ServicesPauseAlways),
+			Schedule: vkWeeklyKind(c.ServicesPauseAlways, c.ServicesFarZone),
 			IDs:      c.Services,
 		},
 		FiltersUpdateIntervalHours: 0,
@@ -410,7 +482,15 @@ func vkExchangeDO(vs *vkServer, src string, tcp bool, name string, qtype uint16,
 	} else {
 		c.Dialer = &net.Dialer{LocalAddr: &net.UDPAddr{IP: net.ParseIP(src)}, Timeout: 5 * time.Second}
 	}
-	resp, _, err = c.Exchange(m, addr)
+	for attempt := 0; ; attempt++ {
+		resp, _, err = c.Exchange(m, addr)
+		// A failure to get a local port (other jobs on the machine use up the
+		// ephemeral range) happens before anything is sent; try again.
+		if err == nil || attempt >= 100 || !(errors.Is(err, syscall.EADDRINUSE) || errors.Is(err, syscall.EADDRNOTAVAIL)) {
+			break
+		}
+		time.Sleep(50 * time.Millisecond)
+	}
 
 	return resp, err
 }
